@@ -1,6 +1,6 @@
 (* Entry points of the hook model (dippy.py main): wire adapters only. *)
 From Coq Require Import List Bool NArith String.
-From DippyV Require Import Base.Str Base.Verdict Base.Sx Model.Hook Entry.Common.
+From DippyV Require Import Base.Str Base.Verdict Base.Sx Base.Tree Model.Hook Model.HookView Model.Tokens Entry.Common.
 Import ListNotations.
 Open Scope N_scope.
 
@@ -147,5 +147,13 @@ Section Orc.
             | Some m => sx_of_bool (conforms m (json_of_sx (a 1%nat)))
             | None => A $"?mode"
             end)
+    else if is_cmd cmd "hook_view" then
+      (* what main() can observe of a payload (C06_host_view) *)
+      Some (sx_of_json (host_view (json_of_sx (a 0%nat))))
+    else if is_cmd cmd "hook_tokens" then
+      (* _extract_tokens on the serialised AST nodes that parse() returned *)
+      Some (sx_of_strs (extract_tokens (map tree_of_sx (sx_list (a 0%nat)))))
+    else if is_cmd cmd "hook_strip_quotes" then
+      Some (A (strip_quotes (sx_str (a 0%nat))))
     else None.
 End Orc.
